@@ -122,3 +122,52 @@ theorem flattenSrc_respell {f : List SMod → List SMod} (hf : Respelling f) (sr
   simp [flattenSrc, elabLib_respell hf, defaultFuel, pathsList_respell]
 
 end PymocaVerif.Flatten
+
+namespace PymocaVerif.Flatten
+
+theorem findScope_spec {paths : List Path} {h : Name} {scope : Path} {i : Nat} {s : Path}
+    (hf : findScope paths h scope i = some s) :
+    ∃ j, j ≤ i ∧ s = scope.take j ∧ s ++ [h] ∈ paths ∧
+      ∀ j', j < j' → j' ≤ i → scope.take j' ++ [h] ∉ paths := by
+  induction i with
+  | zero =>
+    simp only [findScope] at hf
+    split at hf
+    · rename_i hc
+      cases hf
+      exact ⟨0, Nat.le_refl _, rfl, by simpa using hc, fun j' h1 h2 => by omega⟩
+    · cases hf
+  | succ i ih =>
+    simp only [findScope] at hf
+    split at hf
+    · rename_i hc
+      cases hf
+      exact ⟨i + 1, Nat.le_refl _, rfl, by simpa using hc, fun j' h1 h2 => by omega⟩
+    · rename_i hc
+      obtain ⟨j, hj, hs, hin, hno⟩ := ih hf
+      refine ⟨j, by omega, hs, hin, ?_⟩
+      intro j' h1 h2
+      by_cases hj' : j' = i + 1
+      · subst hj'; simpa using hc
+      · exact hno j' h1 (by omega)
+
+/-- Lexical lookup: a successful lookup of `h :: t` from `scope` yields the class `s ++ h :: t`
+    where `s` is the innermost enclosing scope (a prefix of `scope`) declaring a class `h`. -/
+theorem resolveRef_lexical {paths : List Path} {scope : Path} {h : Name} {t : List Name} {p : Path}
+    (hr : resolveRef paths scope (h :: t) = .ok (.cls p)) :
+    ∃ j, j ≤ scope.length ∧ p = scope.take j ++ h :: t ∧ p ∈ paths ∧ scope.take j ++ [h] ∈ paths ∧
+      ∀ j', j < j' → j' ≤ scope.length → scope.take j' ++ [h] ∉ paths := by
+  simp only [resolveRef] at hr
+  split at hr
+  · split at hr <;> cases hr
+  · split at hr
+    · cases hr
+    · rename_i s hs
+      split at hr
+      · rename_i hc
+        cases hr
+        obtain ⟨j, hj, rfl, hin, hno⟩ := findScope_spec hs
+        exact ⟨j, hj, rfl, by simpa using hc, hin, hno⟩
+      · cases hr
+
+end PymocaVerif.Flatten
